@@ -38,12 +38,12 @@ type Stats struct {
 // Solver drives one long-lived incremental solver process whose assertion
 // stack mirrors the explorer's decision stack.
 type Solver struct {
-	Backend   Backend
-	SoftMS    int // per-query limit for the incremental process
-	HardS     int // limit for escalated one-shot portfolio
+	Backend    Backend
+	SoftMS     int // per-query limit for the incremental process
+	HardS      int // limit for escalated one-shot portfolio
 	ScratchDir string
-	Stats     Stats
-	Log       io.Writer
+	Stats      Stats
+	Log        io.Writer
 
 	cmd      *exec.Cmd
 	in       io.WriteCloser
